@@ -102,6 +102,8 @@ type sphRun struct {
 	skipped        []int64 // application-data numbers the harness saw skipped, in order
 	appHi          int64
 	sentSinceReset bool
+	prev           trackedSummary // (sendglue) summary after the previous handler call
+	prevBif        int64
 	ipn            int64
 	lowTracked     int64
 	lowTrackedOK   bool
